@@ -7,6 +7,8 @@ import ast
 from ..astutil import call_name, calls_in, dotted, guard_atoms, lexical_guards, unparse, walk_local
 from ..cfg import no_exc
 from ..report import Registry, chain, sub
+from ._helpers_rob_a import helper_callers
+from ._helpers_rob_h1 import local_defs, nform, reachable_methods, tri_edges
 
 R = Registry(
     "C52",
@@ -62,10 +64,42 @@ def _registry_uses(fn):
         for c in ast.iter_child_nodes(n):
             pm[c] = n
     out = []
+    loads = {x.id for x in ast.walk(fn) if isinstance(x, ast.Name) and isinstance(x.ctx, ast.Load)}
     for n in ast.walk(fn):
         if isinstance(n, ast.Attribute) and n.attr == "registry" and isinstance(n.value, ast.Name) and n.value.id == "self":
-            out.append((n, pm.get(n), pm))
+            p = pm.get(n)
+            if isinstance(p, (ast.Assign, ast.AnnAssign)) and p.value is n and isinstance(n.ctx, ast.Load):
+                tgs = p.targets if isinstance(p, ast.Assign) else [p.target]
+                if all(isinstance(t, ast.Name) and t.id not in loads for t in tgs):
+                    continue        # `registry = self.registry` whose every read was resolved (normal form): a dead store
+            out.append((n, p, pm))
     return out
+
+
+def _private(name):
+    return name.startswith("_") and not (name.startswith("__") and name.endswith("__"))
+
+
+def _class_forms(ctx, cls, **kw):
+    """({method name: normal form}, names of private helpers that are read at every one of their call sites): a helper
+    that was inlined into all its callers is judged there, with the caller's arguments -- not once more on its own,
+    where its parameters mean nothing"""
+    forms = {m: nform(ctx, f, **kw) for m, f in cls.methods.items() if not f.type_only}
+    folded = set()
+    for m, f in cls.methods.items():
+        if not _private(m) or m not in forms:
+            continue
+        callers = helper_callers(ctx.index, f)
+        if not callers:
+            continue
+        ok = True
+        for ck in callers:
+            cm = ck.split("::", 1)[1].split(".")
+            if len(cm) != 2 or cm[0] != cls.name or cm[1] not in forms or f.key not in forms[cm[1]].inlined:
+                ok = False
+        if ok:
+            folded.add(m)
+    return forms, folded
 
 
 @R.rule("C52-R1", floor=7, template="T-FLOW",
@@ -73,7 +107,10 @@ def _registry_uses(fn):
              "the same call; creation is the atomic setdefault(key, self.createfunc())")
 def r1(ctx):
     cls = ctx.index.cls(SR)
-    for mname, f in sorted(cls.methods.items()):
+    forms, folded = _class_forms(ctx, cls)
+    for mname, f in sorted(forms.items()):
+        if mname in folded:
+            continue
         uses = _registry_uses(f.node)
         if not uses:
             continue
@@ -108,7 +145,8 @@ def r1(ctx):
                 prob = "__call__ creates by check-then-assign instead of the atomic setdefault()"
             ctx.check(prob is None, key, prob or "", f"{kind}[{unparse(keyexpr) if keyexpr is not None else ''}]", f.loc)
     # creation path of __call__
-    f = ctx.func(f"{SR}.__call__")
+    ctx.func(f"{SR}.__call__")
+    f = forms["__call__"]
     sd = [c for c in calls_in(f.node) if (call_name(c) or "") == "self.registry.setdefault"]
     ctx.check(bool(sd), f"{f.key}:create", "a missing entry is not created through registry.setdefault(key, createfunc()) "
                                            "(two threads sharing a scope key could each get their own object)",
@@ -164,10 +202,18 @@ def r2(ctx):
               f"identifier of the thread (idents are recycled) keeps the entry of a finished thread and hands it to the "
               f"next thread with the same key; only threading.local() storage dies with its thread",
               "threading.local()", init.loc if init else cls.loc)
-    accessors = [m for m, f in base.methods.items() if m != "__init__" and _registry_uses(f.node)]
+    accessors = {m for m, f in base.methods.items() if m != "__init__" and _registry_uses(f.node)}
+    accessors |= {m for m, f in cls.methods.items() if m != "__init__" and _registry_uses(f.node)}
+    # what can run on a ThreadLocalRegistry instance: its interface (MRO) and what that calls on self.  A private helper
+    # of ScopedRegistry that only the overridden accessors of the base call never runs on the thread-local storage
+    reach = reachable_methods(ctx, cls)
     for m in sorted(accessors):
         f = cls.methods.get(m)
         key = f"{TL}.{m}"
+        if f is None and m not in reach:
+            ctx.ok(key, f"ScopedRegistry.{m} is only called by accessors that ThreadLocalRegistry overrides: it never runs on "
+                        f"the thread-local storage", nontrivial=False)
+            continue
         if f is None:
             if is_tl:
                 msg = f"accessor {m} is inherited from ScopedRegistry: it would index the threading.local like a dict"
@@ -177,6 +223,7 @@ def r2(ctx):
             ctx.violation(key, msg, cls.loc)
             continue
         ctx.functions_analysed.add(f.key)
+        f = nform(ctx, f)
         probs = []
         for n, p, pm in _registry_uses(f.node):
             if isinstance(p, ast.Attribute) and p.value is n and p.attr == "value":
@@ -209,18 +256,31 @@ def _clear_impl_ok(f, threadlocal):
              "path; clear() implementations delete only the current scope's entry")
 def r3(ctx):
     for rel, cname in SCOPED:
-        f = ctx.func(f"{rel}::{cname}.remove")
+        # normal form: `registry = self.registry` is resolved, `current = registry()` / `current.close()` is read as
+        # `self.registry().close()`, an extracted helper is read at its call
+        f = nform(ctx, ctx.func(f"{rel}::{cname}.remove"), temps=True)
         g = ctx.cfg(f)
-        pm = f.module.parents()
-        closes = [c for c in calls_in(f.node) if (call_name(c) or "") == "self.registry().close"]
+        defs = local_defs(f.node)
+
+        def is_current(e):
+            """the current scope's session: `self.registry()` or a local bound only to it"""
+            if isinstance(e, ast.Await):
+                return is_current(e.value)
+            if isinstance(e, ast.Call):
+                return call_name(e) == "self.registry" and not e.args and not e.keywords
+            if isinstance(e, ast.Name):
+                vs = defs.get(e.id)
+                return bool(vs) and all(v is not None and is_current(v) for v in vs)
+            return False
+        closes = [c for c in calls_in(f.node) if isinstance(c.func, ast.Attribute) and c.func.attr == "close" and is_current(c.func.value)]
+        resolves = [c for c in calls_in(f.node) if call_name(c) == "self.registry" and not c.args]
         clears = g.find_calls("self.registry.clear")
         probs = []
         if not closes:
             probs.append("the current session is not closed")
-        for c in closes:
-            atoms = guard_atoms(lexical_guards(pm, c, stop=f.node))
-            if ("self.registry.has()", True) not in atoms:
-                probs.append("registry().close() is not guarded by registry.has(): remove() would create a session just to close it")
+        # branch outcomes that dominate the call on the CFG (nested ifs, early return, inverted if/else alike)
+        if any(("self.registry.has()", True) not in _atoms_at(g, c) for c in closes + resolves):
+            probs.append("registry().close() is not guarded by registry.has(): remove() would create a session just to close it")
         if not clears:
             probs.append("registry.clear() is never called")
         else:
@@ -251,21 +311,37 @@ def r4(ctx):
         assigns = [n for n in walk_local(f.node) if isinstance(n, ast.Assign) and any(unparse(t) == "self.registry" for t in n.targets)]
         probs = []
         kinds = {}
+        gi = ctx.cfg(f)
+
+        def scenario(given):
+            """registry classes whose assignment is reachable when scopefunc is / is not given -- the test may be spelled
+            `if scopefunc:`, `if scopefunc is None:` (inverted), `if not scopefunc: ... return`"""
+            def fact(e):
+                if isinstance(e, ast.Name) and e.id == "scopefunc":
+                    return given
+                if isinstance(e, ast.Compare) and len(e.ops) == 1 and isinstance(e.left, ast.Name) and e.left.id == "scopefunc" \
+                        and isinstance(e.comparators[0], ast.Constant) and e.comparators[0].value is None \
+                        and isinstance(e.ops[0], (ast.Is, ast.IsNot, ast.Eq, ast.NotEq)):
+                    return (not given) == isinstance(e.ops[0], (ast.Is, ast.Eq))
+                return None
+            cut = tri_edges(gi, fact)
+            r = gi.reachable([gi.entry], edge_ok=lambda a, b, l: l != "exc" and (a, l) not in cut)
+            return sorted({(call_name(a.value) or "").split(".")[-1] for a in assigns if isinstance(a.value, ast.Call)
+                           and set(gi.nodes_for(a)) & r})
         for a in assigns:
             if not isinstance(a.value, ast.Call):
                 probs.append(f"registry assigned from `{unparse(a.value)}`")
                 continue
             k = (call_name(a.value) or "").split(".")[-1]
-            atoms = guard_atoms(lexical_guards(pm, a, stop=f.node))
-            kinds[k] = atoms
+            kinds[k] = guard_atoms(lexical_guards(pm, a, stop=f.node))
             if not a.value.args or unparse(a.value.args[0]) != "session_factory":
                 probs.append(f"{k} is not fed with session_factory")
             if k == "ScopedRegistry" and (len(a.value.args) < 2 or unparse(a.value.args[1]) != "scopefunc"):
                 probs.append("ScopedRegistry is not given the scopefunc")
         optional = "scopefunc" in [x.arg for x, d in zip(f.node.args.args[-len(f.node.args.defaults):], f.node.args.defaults)] if f.node.args.defaults else False
         if optional:
-            if kinds.get("ScopedRegistry") != [("scopefunc", True)] or kinds.get("ThreadLocalRegistry") != [("scopefunc", False)]:
-                probs.append(f"registry kind does not follow scopefunc: {kinds}")
+            if scenario(True) != ["ScopedRegistry"] or scenario(False) != ["ThreadLocalRegistry"]:
+                probs.append(f"registry kind does not follow scopefunc: given -> {scenario(True)}, not given -> {scenario(False)}")
         else:
             if list(kinds) != ["ScopedRegistry"] or kinds["ScopedRegistry"]:
                 probs.append(f"mandatory scopefunc must always select ScopedRegistry: {kinds}")
@@ -292,8 +368,7 @@ def r4(ctx):
                                                            f"(state on the shared scoped_session object is visible to every scope)",
                   "no per-call state on the shared object", cls.loc)
         # __call__
-        c = ctx.func(f"{cls.key}.__call__")
-        pmc = c.module.parents()
+        c = nform(ctx, ctx.func(f"{cls.key}.__call__"), temps=True)
         sets = [x for x in calls_in(c.node) if (call_name(x) or "") == "self.registry.set"]
         probs = []
         gc = ctx.cfg(c)
@@ -458,7 +533,7 @@ def r5(ctx):
     for ck in (SR, TL):
         cls = ctx.index.cls(ck)
         # ---- __call__
-        f = ctx.method(ck, "__call__")
+        f = nform(ctx, ctx.method(ck, "__call__"))
         g = ctx.cfg(f)
         probs = []
         w = _falls_off(g)
@@ -482,7 +557,7 @@ def r5(ctx):
                 probs.append(f"`{unparse(rn.stmt)[:60]}` is not the current slot's content")
         ctx.check(not probs, f"{ck}.__call__:returns-stored", "; ".join(probs), "every return hands out the slot's object", f.loc)
         # ---- has
-        f = ctx.method(ck, "has")
+        f = nform(ctx, ctx.method(ck, "has"))
         g = ctx.cfg(f)
         probs = []
         if _falls_off(g) is not None:
@@ -500,7 +575,7 @@ def r5(ctx):
                              f"session and create one just to close it when there is none")
         ctx.check(not probs, f"{ck}.has:positive-presence", "; ".join(probs), "true iff the current slot is occupied", f.loc)
         # ---- set
-        f = ctx.method(ck, "set")
+        f = nform(ctx, ctx.method(ck, "set"))
         g = ctx.cfg(f)
         params = _param_names(f.node)
         ctx.require(len(params) == 2, f"{f.key}: expected set(self, obj)")
@@ -540,9 +615,8 @@ def r5(ctx):
 def r6(ctx):
     for rel, cname in SCOPED:
         cls = ctx.index.cls(f"{rel}::{cname}")
-        c = ctx.func(f"{cls.key}.__call__")
+        c = nform(ctx, ctx.func(f"{cls.key}.__call__"), temps=True)
         g = ctx.cfg(c)
-        pm = c.module.parents()
         kwname = c.node.args.kwarg.arg if c.node.args.kwarg else None
         ctx.require(kwname is not None, f"{c.key}: no **kw parameter")
         # ---- returns-registered
